@@ -142,7 +142,23 @@ def ev_append_ps(cx, recv, args):
     setcnt(cx, 'rows_time', cnt(cx, 'rows_time') + If(notps, I(1), I(0)))
     setcnt(cx, 'final_appends', cnt(cx, 'final_appends') + If(And(notps, cnt(cx, 'phase_after_loop') == 1), I(1), I(0)))
     cx.st.scal[G + 'last_t'] = RealV(args[1].t if isinstance(args[1], RealV) else z3.ToReal(args[1].t))
+    record_check(cx, 'population_of_current_profile', Implies(notps, loc(cx, 'FIL') == U('integrate', 1)(loc(cx, 'P0'))))
+    fresh = loc(cx, 'P0') == U('xproj', 1)(loc(cx, 'D1'))
+    try:
+        renorm = And(cx.a('renormalize') > 0, cx.v('simulationstep') % cx.a('renormalize') == 0)
+    except ExtractionError:
+        renorm = z3.BoolVal(False)      # initial record, before the loop
+    record_check(cx, 'bunch_profile_is_projection_of_stored_grid', Implies(notps, fresh))
+    # the same statement away from renormalisation steps (see known_findings.json: region of the open finding)
+    record_check(cx, 'bunch_profile_is_projection_outside_renormalisation', Implies(And(notps, Not(renorm)), fresh))
+    record_check(cx, 'energy_profile_of_current_grid', Implies(notps, loc(cx, 'P1') == U('yproj', 1)(loc(cx, 'D1'))))
     cx.st.scal[G + 'last_data'] = RealV(U('record', 5)(loc(cx, 'D1'), loc(cx, 'P0'), loc(cx, 'P1'), loc(cx, 'MOM'), loc(cx, 'FIL')))
+
+
+def record_check(cx, label, f):
+    """obligation emitted at an append event: the quantity being recorded was computed from the current grid"""
+    cx.ex.ev_n = getattr(cx.ex, 'ev_n', 0) + 1
+    cx.ex.oblig(cx.st, f'record.{label}.L{cx.ex.curline}.{cx.ex.ev_n}', f, 'postcondition', {'C10'})
 
 
 def ev_append_1(cx, recv, args):
@@ -151,8 +167,10 @@ def ev_append_1(cx, recv, args):
     nm = recv_name(a) if isinstance(a, ObjRef) else '?'
     if 'rdtn_field' in nm:
         setcnt(cx, 'rows_csr', cnt(cx, 'rows_csr') + 1)
+        record_check(cx, 'csr_of_current_profile', loc(cx, 'CSR') == U('csr', 1)(loc(cx, 'P0')))
     elif 'wkm' in nm:
         setcnt(cx, 'rows_wake', cnt(cx, 'rows_wake') + 1)
+        record_check(cx, 'wake_of_current_profile', loc(cx, 'OFFW') == U('wake_update', 1)(loc(cx, 'P0')))
     else:
         raise ExtractionError(f'main: append() of unknown object {nm}')
 
@@ -189,7 +207,7 @@ class MainLoop(Contract):
     aux_tus = [('src/main.cpp', 'vfps::')]
     params = ['argc', 'argv']
     tags = {'C05', 'C10', 'C12', 'C14', 'C19'}
-    slice_from = 'simulationstep'
+    slice_from = 'updatetime'
     canary = True
 
     def slice_setup(self, ex, st):
@@ -247,6 +265,7 @@ class MainLoop(Contract):
                 ('rows.wake', Implies(self.wkm_set(cx), cnt(cx, 'rows_wake') == cnt(cx, 'rows_time'))),
                 ('rf.records', cnt(cx, 'rows_rf') + cnt(cx, 'rf_pending') == cnt(cx, 'rf_applied')),
                 ('phase', And(cnt(cx, 'phase_after_loop') == 0, cnt(cx, 'final_appends') == 0)),
+                ('projection_fresh', loc(cx, 'P0') == U('xproj', 1)(loc(cx, 'D1'))),
                 ('hdf', self.hdf_guard(cx))]
 
     def hdf_guard(self, cx):
@@ -302,6 +321,7 @@ class MainLoop(Contract):
             'PhaseSpace::updateYProjection': E('ps.yproj', ev_yproj),
             'PhaseSpace::updateXProjection': E('ps.xproj', ev_xproj),
             'ElectricField::updateCSR': E('csr.update', ev_update_csr),
+            'ElectricField::wakePotential': E('field.wake', lambda cx, r, a: PtrV('wakepotential', I(0))),
             'HDF5File::append/3': E('h5.append.ps', ev_append_ps),
             'HDF5File::append/2': E('h5.append.field', ev_append_1),
             'HDF5File::append/1': E('h5.append.wake', ev_append_1),
